@@ -58,6 +58,13 @@ pub mod verif {
   use samlang_heap::PStr;
   use std::{collections::HashMap, sync::Arc};
 
+  pub use super::ssa_analysis::verif::Event as SsaEvent;
+
+  /// Takes (and clears) the log of scope-stack calls made by SSA analysis so far.
+  pub fn take_ssa_events() -> Vec<SsaEvent> {
+    std::mem::take(&mut *super::ssa_analysis::verif::LOG.lock().unwrap())
+  }
+
   pub fn contains_placeholder(type_: &Type) -> bool {
     super::type_system::contains_placeholder(type_)
   }
